@@ -68,6 +68,12 @@ pub struct Domain {
     pub avoid: BTreeSet<String>,
     /// never remove the root (C03: "removal of the root itself aside")
     pub keep_root: bool,
+    /// open_file followed by a read/seek script (moderate offsets) instead of a plain read_to_end
+    pub read_scripts: bool,
+    /// read/seek scripts use extreme offsets (i64::MIN/MAX, u64::MAX, +-len+-1) — C13 only
+    pub extreme_scripts: bool,
+    /// seeks inside append sessions (memory-backed configurations only: O_APPEND differs by design)
+    pub append_seeks: bool,
 }
 
 pub fn weights_full() -> Vec<(&'static str, u32)> {
@@ -104,6 +110,9 @@ impl Domain {
             rich_scripts: false,
             avoid: BTreeSet::new(),
             keep_root: true,
+            read_scripts: false,
+            extreme_scripts: false,
+            append_seeks: false,
         }
     }
     pub fn untyped() -> Domain {
@@ -117,12 +126,15 @@ impl Domain {
             rich_scripts: false,
             avoid: BTreeSet::new(),
             keep_root: true,
+            read_scripts: false,
+            extreme_scripts: false,
+            append_seeks: false,
         }
     }
 }
 
 pub const CONTENT_LENS: &[usize] = &[0, 1, 2, 7, 255];
-pub const BIG_LENS: &[usize] = &[8191, 8192, 8193, 16384];
+pub const BIG_LENS: &[usize] = &[8191, 8192, 8193, 16384, 65537];
 
 pub fn gen_content(rng: &mut Rng, big_permille: u64) -> Vec<u8> {
     let len = if rng.chance(big_permille, 1000) { *rng.pick(BIG_LENS) } else { *rng.pick(CONTENT_LENS) };
@@ -131,6 +143,10 @@ pub fn gen_content(rng: &mut Rng, big_permille: u64) -> Vec<u8> {
 }
 
 pub fn gen_wscript(rng: &mut Rng, d: &Domain) -> Vec<WStep> {
+    gen_wscript_opt(rng, d, true)
+}
+
+pub fn gen_wscript_opt(rng: &mut Rng, d: &Domain, seeks: bool) -> Vec<WStep> {
     let mut s = vec![];
     let n = match rng.below(6) {
         0 => 0,
@@ -138,10 +154,17 @@ pub fn gen_wscript(rng: &mut Rng, d: &Domain) -> Vec<WStep> {
         _ => 2,
     };
     for _ in 0..n {
-        if d.rich_scripts && rng.chance(1, 4) {
-            s.push(WStep::Seek(rng.below(3) as u8, [0i64, 1, 2, 5, -1, -3][rng.below(6)]));
+        if d.rich_scripts && seeks && rng.chance(1, 3) {
+            let whence = rng.below(3) as u8;
+            let off = if whence == 0 { [0i64, 1, 2, 5, 300, 8192][rng.below(6)] } else { [0i64, 1, 2, 5, -1, -3, -300, 9000][rng.below(8)] };
+            s.push(WStep::Seek(whence, off));
         }
-        s.push(WStep::Write(gen_content(rng, d.big_content_permille)));
+        let mut content = gen_content(rng, d.big_content_permille);
+        if d.rich_scripts && seeks && content.is_empty() {
+            // zero-length writes beyond the end are not "writing past the end" (Cursor pads, File does not)
+            content = vec![b'z'];
+        }
+        s.push(WStep::Write(content));
         if d.rich_scripts && rng.chance(1, 4) {
             s.push(WStep::Flush);
         }
@@ -157,7 +180,31 @@ pub fn gen_rscript(rng: &mut Rng) -> Vec<RStep> {
     for _ in 0..rng.range(1, 4) {
         match rng.below(3) {
             0 => s.push(RStep::Read([0usize, 1, 2, 7, 300, 9000][rng.below(6)])),
-            1 => s.push(RStep::Seek(rng.below(3) as u8, [0i64, 1, 2, 7, 300][rng.below(5)] * if rng.chance(1, 3) { -1 } else { 1 })),
+            1 => {
+                let whence = rng.below(3) as u8;
+                let mag = [0i64, 1, 2, 7, 300][rng.below(5)];
+                // SeekFrom::Start takes an unsigned offset: only Current/End get negative ones
+                let off = if whence != 0 && rng.chance(1, 3) { -mag } else { mag };
+                s.push(RStep::Seek(whence, off))
+            }
+            _ => s.push(RStep::ReadToEnd),
+        }
+    }
+    s
+}
+
+pub const EXTREME_OFFSETS: &[i64] = &[i64::MIN, i64::MIN + 1, -9000, -256, -8, -2, -1, 0, 1, 2, 7, 8, 255, 256, 8192, i64::MAX - 1, i64::MAX];
+
+pub fn gen_rscript_extreme(rng: &mut Rng) -> Vec<RStep> {
+    let mut s = vec![];
+    for _ in 0..rng.range(1, 6) {
+        match rng.below(4) {
+            0 => s.push(RStep::Read([0usize, 1, 2, 7, 300, 9000][rng.below(6)])),
+            1 | 2 => {
+                let whence = rng.below(3) as u8;
+                let off = if whence == 0 { [0i64, 1, 7, 255, 8192, -1 /* = u64::MAX */, i64::MAX, i64::MIN /* = 2^63 */][rng.below(8)] } else { *rng.pick(EXTREME_OFFSETS) };
+                s.push(RStep::Seek(whence, off))
+            }
             _ => s.push(RStep::ReadToEnd),
         }
     }
@@ -208,10 +255,10 @@ pub fn gen_op(rng: &mut Rng, d: &Domain, u: &Universe, m: &Model) -> Op {
         let op = match kind {
             "create_dir" => Op::CreateDir(p),
             "create_file" => Op::CreateFile(p, gen_wscript(rng, d)),
-            "append_file" => Op::AppendFile(p, gen_wscript(rng, d)),
+            "append_file" => Op::AppendFile(p, gen_wscript_opt(rng, d, d.append_seeks)),
             "remove_file" => Op::RemoveFile(p),
             "remove_dir" => Op::RemoveDir(p),
-            "open_read" => Op::OpenRead(p, if d.rich_scripts { gen_rscript(rng) } else { vec![] }),
+            "open_read" => Op::OpenRead(p, if d.extreme_scripts { gen_rscript_extreme(rng) } else if d.read_scripts { gen_rscript(rng) } else { vec![] }),
             "read_dir" => Op::ReadDir(p),
             "metadata" => Op::Metadata(p),
             "exists" => Op::Exists(p),
